@@ -77,7 +77,9 @@ def _job(args):
                         per.append((a, sym.name, None, None))
                 rp2 = ClingoResultParser(Cnl2asp(text).parse_input())
                 whole = rp2.parse_model(list(atoms))
-                res.append((per, sigs, nsub, whole, list(rp.target_predicates)))
+                from cnl2asp.specification.signaturemanager import SignatureManager
+                keyn = {str(sg.get_name()): len(sg.keys) for sg in SignatureManager.signatures}
+                res.append((per, sigs, nsub, whole, list(rp.target_predicates), keyn))
         return (r[1], res)
     except Exception as e:  # noqa
         return ('harness-error', '%s: %s' % (type(e).__name__, e))
@@ -104,11 +106,16 @@ def run(tier, seed):
         prog, models = r
         st['programs'] += 1
         rep.case(text)
-        for per, sigs, nsub, whole, targets in models:
+        for per, sigs, nsub, whole, targets, keyn in models:
             st['answer_sets'] += 1
             seen = {}
             lines = [l for l in whole.split('\n') if l.strip()]
             exp_lines = []
+            atoms_by_pred = {}
+            for atom, _, _, _ in per:
+                m_ = re.match(r'^([a-z_][A-Za-z0-9_]*)\((.*)\)$', atom)
+                if m_ and '(' not in m_.group(2):
+                    atoms_by_pred.setdefault(m_.group(1), []).append([x.strip().strip('"') for x in m_.group(2).split(',')])
             for atom, pred, args, sent in per:
                 if args is None:
                     st['other_atoms'] += 1
@@ -130,6 +137,20 @@ def run(tier, seed):
                 words = pred.replace('_', ' ')
                 if words.lower() not in sent.lower():
                     rep.violation('the explanation does not name the concept', info)
+                # the subject the sentence starts with must be an individual of the answer set: '<Concept> ... <verb> ...' for an atom of
+                # another predicate requires an atom of <concept> whose arguments are a contiguous part of the explained atom's arguments
+                fw = sent.split()[0].lower() if sent.split() else ''
+                if fw != pred and fw in atoms_by_pred:
+                    plain = [a.strip('"') for a in args]
+                    ok_subject = False
+                    for cargs in atoms_by_pred[fw]:
+                        k = keyn.get(fw, len(cargs)) or len(cargs)
+                        cargs = cargs[:k]
+                        if any(plain[i:i + k] == cargs for i in range(len(plain) - k + 1)):
+                            ok_subject = True
+                            break
+                    if not ok_subject:
+                        rep.violation('the explanation names as subject a %s that is not in the answer set' % fw, dict(info, atoms_of_that_concept=atoms_by_pred[fw][:6]))
                 if all(ord(c) < 128 for c in sent + atom):
                     cases.append('{| xc_sig := %s; xc_args := %s; xc_out := %s |}' % (sigs[pred], coq_list([coq_str(a) for a in args]), coq_str(sent)))
                     meta.append(info)
